@@ -22,6 +22,7 @@ def _weights(calc):
 
 def _abs_scale_from_arrays(calc, t, v, ei, ej, longitudinal):
     """sum of absolute mode terms from the arrays (tolerance scale only)."""
+    ei, ej = numpy.abs(numpy.asarray(ei, dtype=float)), numpy.abs(numpy.asarray(ej, dtype=float))     # magnitudes: a negative fraction must not cancel terms
     freq = numpy.abs(numpy.asarray(calc.freq_array, dtype=float))
     g = numpy.abs(numpy.asarray(calc.mode_gamma[1], dtype=float))
     dg = numpy.abs(numpy.asarray(calc.mode_gamma[0], dtype=float))
